@@ -117,6 +117,25 @@ func (tr *Tr) call(fr *frame, site ssa.Value, cc *ssa.CallCommon, pos token.Pos)
 
 func (tr *Tr) staticCall(fr *frame, callee *ssa.Function, args []Val, bindings []Val, rt types.Type, pos token.Pos, cc *ssa.CallCommon) Val {
 	name := callee.String()
+	// sync/atomic on a location whose place is known (the address of a field or element): the
+	// operation itself, under the sequential semantics every function is verified with
+	if callee.Pkg != nil && callee.Pkg.Pkg.Path() == "sync/atomic" && cc != nil && len(cc.Args) >= 1 {
+		if pl := fr.places[cc.Args[0]]; pl != nil && (pl.kind == plField || pl.kind == plCell || pl.kind == plElem) && isInt(pl.ty) {
+			w := intWidth(pl.ty)
+			cur := tr.loadPlace(pl, fr.heap)
+			switch {
+			case strings.HasPrefix(callee.Name(), "Add") && len(args) == 2:
+				nv := tr.define(bvSort(w), app("bvadd", cur.T, args[1].T), "atomic_add")
+				tr.storePlace(pl, fr.heap, nv)
+				return Val{T: nv, Ty: pl.ty}
+			case strings.HasPrefix(callee.Name(), "Load") && len(args) == 1:
+				return Val{T: tr.define(bvSort(w), cur.T, "atomic_load"), Ty: pl.ty}
+			case strings.HasPrefix(callee.Name(), "Store") && len(args) == 2:
+				tr.storePlace(pl, fr.heap, args[1].T)
+				return Val{Ty: rt}
+			}
+		}
+	}
 	// verification intrinsics
 	if strings.HasSuffix(name, ".verifAssert") && len(args) == 2 {
 		lab := "?"
@@ -237,7 +256,7 @@ func (tr *Tr) havocCall(fr *frame, args []Val, rt types.Type, havocHeap bool) Va
 		fr.heap = fr.heap.havocAll()
 		newA := tr.declareConst("Int", "A_call")
 		tr.assume("true", app(">=", newA, oldA))
-		fr.heap.m["ALLOC"] = newA
+		fr.heap.m["ALLOC"] = tr.noteEpoch(fr.heap, newA)
 		tr.vc.Abstract["havoc-heap-at-unknown-call"]++
 	}
 	return tr.freshResult(fr, rt, "ret")
@@ -343,7 +362,7 @@ func (tr *Tr) applyContract(fr *frame, callee *ssa.Function, c *Contract, args [
 		fr.heap = fr.heap.havocAll()
 		newA := tr.declareConst("Int", "A_call")
 		tr.assume("true", app(">=", newA, oldA))
-		fr.heap.m["ALLOC"] = newA
+		fr.heap.m["ALLOC"] = tr.noteEpoch(fr.heap, newA)
 	} else {
 		tg := tr.assignTargets(fr, c, env)
 		if t := tg["*"]; t != nil && t.all {
@@ -351,7 +370,7 @@ func (tr *Tr) applyContract(fr *frame, callee *ssa.Function, c *Contract, args [
 			fr.heap = fr.heap.havocAll()
 			newA := tr.declareConst("Int", "A_call")
 			tr.assume("true", app(">=", newA, oldA))
-			fr.heap.m["ALLOC"] = newA
+			fr.heap.m["ALLOC"] = tr.noteEpoch(fr.heap, newA)
 		} else {
 			var ks []string
 			for k := range tg {
@@ -391,7 +410,7 @@ func (tr *Tr) applyContract(fr *frame, callee *ssa.Function, c *Contract, args [
 			newA := tr.declareConst("Int", "A_call")
 			tr.assume("true", app(">=", newA, oldA))
 			tr.freshHeapAbove(fr, oldA, newA)
-			fr.heap.m["ALLOC"] = newA
+			fr.heap.m["ALLOC"] = tr.noteEpoch(fr.heap, newA)
 		}
 	}
 	// callbacks: `calls h` — the callee may invoke its function argument h (at most once); the
@@ -582,7 +601,7 @@ func (tr *Tr) applyIfaceContract(fr *frame, c *Contract, cc *ssa.CallCommon, arg
 		fr.heap = fr.heap.havocAll()
 		newA := tr.declareConst("Int", "A_call")
 		tr.assume("true", app(">=", newA, oldA))
-		fr.heap.m["ALLOC"] = newA
+		fr.heap.m["ALLOC"] = tr.noteEpoch(fr.heap, newA)
 	} else {
 		tg := tr.assignTargets(fr, c, env)
 		var ks []string
@@ -605,7 +624,7 @@ func (tr *Tr) applyIfaceContract(fr *frame, c *Contract, cc *ssa.CallCommon, arg
 		oldA := tr.curA(fr)
 		newA := tr.declareConst("Int", "A_call")
 		tr.assume("true", app(">=", newA, oldA))
-		fr.heap.m["ALLOC"] = newA
+		fr.heap.m["ALLOC"] = tr.noteEpoch(fr.heap, newA)
 	}
 	res := tr.freshResult(fr, rt, "ret_"+cc.Method.Name())
 	post := &specEnv{tr: tr, pkg: pkg, names: map[string]Val{}, heap: fr.heap, old: pre, oldA: preA, curA: tr.curA(fr)}
@@ -901,6 +920,13 @@ func (tr *Tr) loopModSet(fr *frame, li *loopInfo) (map[string]bool, bool) {
 			name := callee.String()
 			if strings.HasSuffix(name, ".verifAssert") || strings.HasSuffix(name, ".verifCanary") {
 				return
+			}
+			if callee.Pkg != nil && callee.Pkg.Pkg.Path() == "sync/atomic" && len(cc.Args) >= 1 {
+				switch cc.Args[0].(type) {
+				case *ssa.FieldAddr, *ssa.IndexAddr:
+					tr.keysOfAddr(cc.Args[0], mod)
+					return
+				}
 			}
 			if c := tr.G.contracts.Funcs[name]; c != nil && !c.Inline {
 				if !c.HasAssigns {
